@@ -188,6 +188,43 @@ prop('C03',
               'patcher functions are verified for a fresh start; the checkpoint handed to a new patcher is a serialized copy of one the patcher produced (gob round trip outside /repo)'],
      not_decided='the property itself quantifies over crash points, save schedules and partially persisted writes: no function contract states "resume from checkpoint k after a crash at any later point equals the uninterrupted run" -- that needs a crash/persistence model relating disk state to checkpoints, which this family does not have here.  What is decided are the per-layer obligations the argument rests on: wire save protocol and Resume offsets (C13), entry writers flush+sync before reporting offsets and reopen without truncation at exactly those offsets, overlay stream self-terminated and header only at offset 0 (C14), bowl work lists stay duplicate-free sets when a file is re-processed, no stale per-file checkpoint enters the next file.  Fresh-bowl entry writers, Transpose de-duplication, gob registration and decompressor checkpoints are not under contract')
 
+# ---- a property depends on more than the functions its own contracts were written for: everything below is under
+# contract anyway (result cache shared between properties), so each property also checks the contracts of the
+# functions it relies on indirectly (found by the round-3 changes, DESIGN 0.6)
+def _add(pid, fl):
+    have = set(PROPERTIES[pid]['functions'])
+    for f in fl:
+        if f not in have:
+            PROPERTIES[pid]['functions'].append(f)
+            have.add(f)
+
+_add('C01', SIGN + BLOCKVALIDATOR)
+_add('C04', [('/ctxcopy', 'DoBuffer'), ('/multiread', '(*multiread).Do')])
+_add('C06', BLOCKVALIDATOR + DRIP + HASHING + [('/pwr', 'ComputeHashInfo'), ('/ctxcopy', 'DoBuffer')])
+_add('C08', SIGN)
+_add('C18', [('/pwr', 'ComputeHashInfo'), ('/pwr', 'AggregateWounds$1')])
+_add('C10', LRUFILE + BSDIFF)
+_add('C09', LRUFILE + [('/bsdiff', '(*IndividualPatchContext).Apply'), ('/bsdiff', '(*AdderReader).Read')] + PATCHER_SERIES)
+_add('C15', WSYNC_DIFF + HASHING + SIGN)
+_add('C14', BOWL_LISTS)
+_add('C16', BLOCKVALIDATOR + DRIP)
+_add('C05', SIGN)
+_add('C07', WIRE_ALL)
+_add('C11', [('/pwr', 'makeOpsWriter$1')])
+
+_add('C02', [('/pwr/bowl', '(*overlayBowl).Save'), ('/pwr/bowl', '(*overlayBowl).Resume')])
+_add('C03', [('/pwr/bowl', '(*overlayBowl).Save'), ('/pwr/bowl', '(*overlayBowl).Resume')])
+_add('C14', [('/pwr/bowl', '(*overlayBowl).Save'), ('/pwr/bowl', '(*overlayBowl).Resume')])
+_add('C17', [('/pwr/patcher', '(*savingPatcher).SetSourceIndexWhitelist'), ('/pwr/patcher', '(*savingPatcher).GetTouchedFiles')])
+_add('C05', [('/pwr', 'isMissing')])
+_add('C06', [('/pwr', 'isMissing')])
+_add('C18', [('/pwr', '(*ValidatingPool).GetWriter')])
+_add('C16', [('/pwr', '(*ValidatingPool).GetWriter')])
+_add('C19', [('/archiver', 'Symlink'), ('/archiver', 'CompressZip$2')])
+_add('C09', [('/bsdiff', '(*PatchContext).NewIndividualPatchContext')])
+_add('C12', [('/bsdiff', '(*PatchContext).NewIndividualPatchContext')])
+_add('C07', [('/bsdiff', '(*PatchContext).NewIndividualPatchContext')])
+
 # properties with a registered check
 CLAIMED = {'C02', 'C03', 'C15', 'C19', 'C18', 'C04', 'C09', 'C17', 'C11', 'C08', 'C01', 'C10', 'C12', 'C07', 'C14', 'C13', 'C05', 'C16', 'C06'}
 # reasons for properties not claimed (kept current)
